@@ -20,7 +20,7 @@ at which the call raises `Boom`.
 
 from __future__ import annotations
 
-from pyiron_workflow import as_function_node
+from pyiron_workflow import as_function_node, as_macro_node
 from pyiron_workflow.channels import NOT_DATA
 from pyiron_workflow.nodes.standard import If
 
@@ -101,6 +101,18 @@ class LIf(If):
         _enter(tag, condition)
         truth = If.node_function(condition)
         return truth
+
+
+@as_macro_node("o")
+def MacroWithA(self, x="d"):
+    self.a = T(tag=11, a=x)
+    return self.a
+
+
+@as_macro_node("o")
+def MacroWithB(self, x="d"):
+    self.b = T(tag=11, a=x)
+    return self.b
 
 
 KINDS = {"term": T, "ident": Ident, "add": Add, "lt": Lt, "if": LIf, "append": Append}
